@@ -225,8 +225,10 @@ UnsupportedTypes == {p \o <<l>> : p \in Prefixes(1), l \in UnsupportedLeaves} \c
 \* does not exist for a Rejected pair.
 MethodRoutes == {"method_arg", "method_result", "method_result_val"}
 Routes(t, c, mdepth) ==
-   ((IF t[1] = "iface" THEN (IF c = "nil0" /\ t = <<"iface", "bool">> THEN {"global"} ELSE {}) ELSE {"global", "global_ov"})
+   ((IF t[1] = "iface" THEN (IF c = "nil0" /\ t = <<"iface", "bool">> THEN {"global"} ELSE {}) ELSE {"global", "global_ov", "global_again"})
     \cup {"field_read", "field_write"}
+    \* global_again: one VM evaluates twice and is handed the same Go value under the same name both times; the
+    \* second evaluation must see what the first saw
     \* a struct-valued field is written THROUGH: dst.F.A = src.F.A (dst.F.B for s2) must reach the Go struct
     \cup (IF t[1] \in {"s1", "s2"} THEN {"nested_write"} ELSE {})
     \cup (IF Len(t) - 1 <= mdepth THEN MethodRoutes ELSE {}))
